@@ -104,7 +104,7 @@ pub fn run(opts: &Opts) -> i32 {
                         format!("nkeys={}", if big { 400 } else { 0 }),
                         format!("ending={}", rng.below(3)),
                     ],
-                    120,
+                    360,
                 );
                 if g.as_deref().map_or(true, |s| !s.starts_with("genimg-done")) {
                     out.emit3(&format!("note genimg-failed {:?}", g), "note", "FAIL workload-child-failed");
@@ -136,7 +136,7 @@ pub fn run(opts: &Opts) -> i32 {
                 if dst_exists {
                     std::fs::write(&dst, b"precious existing destination").unwrap();
                 }
-                let line = run_child(&["migchild".into(), format!("src={src}"), format!("dst={dst}"), format!("allow={}", allow as u8)], 120)
+                let line = run_child(&["migchild".into(), format!("src={src}"), format!("dst={dst}"), format!("allow={}", allow as u8)], 360)
                     .unwrap_or_else(|| "SPAWN-FAILED".into());
                 let mut verdict = "ok".to_string();
                 if line.contains("PANIC") || line.contains("TIMEOUT") || line.contains("CHILD-DIED") {
